@@ -20,17 +20,22 @@ Vocabulary
 * `SnapOK m s` — the cut state is sane: active paths name states, parents of active states are active,
   no duplicates, every remembered list is a non-empty list of states under an owner that is a state.
 * `Quiet s` — quiescent: empty queue, chain-breaker counter at 0 (what `restore` starts from).
-* `restored m s` — configuration = ancestor closure of the id-sorted configuration, history =
-  `histSorted m s.hist` (same owners, every remembered list SORTED BY ID), same context and status.
-* `IdSorted m s` — every remembered list of `s` already is in id order. `_record_history` keeps the
-  lists in (depth, id) order, `get_persisted_snapshot` writes them sorted by id: the two orders differ as
-  soon as a remembered leaf lies deeper than a remembered leaf of a later region (finding F40).
+* `restored m s` — what `from_snapshot` rebuilds: configuration = ancestor closure of the id-sorted
+  configuration; history = same owners, every remembered list sorted by id (the snapshot) and then by
+  (depth, id) (`from_snapshot` since commit 546b3d4: `sortDI`); same context and status.
+* `DISorted m hist` — every remembered list is in the (depth, id) order `_record_history` produces. It is
+  an invariant of every run (`diSorted_run`, unconditional), so it is a hypothesis only for states
+  given out of the blue.
+* `restoreUnsorted` — `from_snapshot` BEFORE 546b3d4 (remembered lists left in the id order of the
+  snapshot); kept only for the counterexample of §4 (finding F40, fixed).
 * `SnapEquiv m s s'` — same configuration as a SET (`List.Perm`), same history, context, status, queue
   and chain-breaker counter; `St.equiv` (C16) is the same plus: traces equal record by record (a `#t:`
   observer record may list the same configuration in another order), same error flag and failure count.
 * `cmdO fl m u s e` — one command as the harness observes it: `send e` from a cleared log.
 * `RunInv … P C E` — an invariant of the run providing, at every transition actually executed, the
-  side conditions of C16's `microstep_equiv`; `runInv_legal` instantiates it from C01/C11.
+  side conditions of C16's `microstep_equiv`; `runInv_legal` instantiates it from C01/C11 with
+  `RunP m s` = "`s.cfg` is `Legal` and every remembered list is a legal selection of its owner's subtree",
+  which holds in every state a run reaches (`reached_runP`).
 * `SelSoundH m` — selection soundness (hypothesis, as `SelSound` in C01's `legal_run`): sources of
   selected transitions are ancestors-or-self of active states; the selected transitions all have
   plain or root targets, or exactly one is selected and it targets a history state whose owner is
@@ -41,18 +46,20 @@ PROVED (all machines, all user code `u`, both engines, no bounds)
   family and `restore_ok_inv`;
 * `step_respects_equiv`, `resume_bisimilar_of_inv`: the bisimulation step and, by induction, every
   continuation — for any run invariant `RunInv`;
-* `resume_bisimilar_partial`: every continuation from a restored snapshot, for well-formed machines
-  with sound selection, under `IdSorted` at the cut;
-* `resume_history_order_counterexample`: without `IdSorted` the claim is false (F40): the restored
-  interpreter re-enters deep-history leaves in another order, and ends with another context.
+* `recorded_lists_sorted` (`DISorted` in every reached state, unconditionally) and `reached_runP`
+  (`Legal` + legal remembered selections in every reached state, history targets included);
+* `resume_bisimilar`: every continuation from a restored snapshot, for well-formed machines with sound
+  selection, from any sane quiescent cut; `resume_bisimilar_run`: the same for a cut REACHED BY A RUN —
+  `Legal`, `HistAll` and `DISorted` are then theorems, what is left as hypothesis of the cut is only
+  "no duplicate in `cfg`, remembered lists name states" (`SnapOK`) and quiescence (`Quiet`);
+* `prefix_resume_history_order_counterexample`: with the pre-fix `restoreUnsorted` the claim was false
+  (F40), and `fix_restores_order_example`: the same witness now agrees.
 
 ONLY VALIDATED (differential check `harness/xsmverif/c12.py`, every cut point of generated runs)
 * that model and code agree on snapshot content, on the restored state and on every continuation;
-* that the states reached by runs satisfy the cut hypotheses: `driver_snap` evaluates `Quiet`, `SnapOK`
-  and `IdSorted` on the model state at every cut (the check requires the first two, and `IdSorted` exactly
-  when the code's restored history lists come back in the live order). C01 gives the `Legal` part for
-  the scope of `legal_run`; `SelSoundH` is a hypothesis (`selSound_of_targetsOK` discharges its
-  plain/root half: `resume_bisimilar_partial_of_targets`);
+* the remaining cut hypotheses: `driver_snap` evaluates `Quiet` and `SnapOK` (and `DISorted`) on the model
+  state at every cut and the check requires them. `SelSoundH` is a hypothesis (`selSound_of_targetsOK`
+  discharges its plain/root half: `resume_bisimilar_of_targets`);
 * JSON text (de)serialisation, isolation from later execution (aliasing), `output`, `error`, the
   snapshot of a never-started interpreter.
 
@@ -68,17 +75,14 @@ open XSM XSM.Spec XSM.Hist XSM.Snap
 /-- quiescent cut point -/
 def Quiet (s : St) : Prop := s.queue = [] ∧ s.raiseDepth = 0
 
-/-- every remembered list already is in the order the snapshot stores it in -/
-def IdSorted (m : Machine) (s : St) : Prop := ∀ kv ∈ s.hist, sortIds m kv.2 = kv.2
-
 /-! ## 1. `restore ∘ snap` -/
 
-theorem histGet_histSorted (m : Machine) (h : List (Path × List Path)) (P : Path) :
-    histGet (histSorted m h) P = (histGet h P).map (sortIds m) := by
+theorem histGet_histOrd (m : Machine) (ord : List Path → List Path) (h : List (Path × List Path)) (P : Path) :
+    histGet (histOrd m ord h) P = (histGet h P).map (fun R => ord (sortIds m R)) := by
   induction h with
   | nil => rfl
   | cons kv h ih =>
-    simp only [histGet, histSorted, List.map_cons, List.find?_cons] at ih ⊢
+    simp only [histGet, histOrd, List.map_cons, List.find?_cons] at ih ⊢
     by_cases hk : kv.1 = P
     · simp [hk]
     · simp only [hk, decide_false]
@@ -86,36 +90,52 @@ theorem histGet_histSorted (m : Machine) (h : List (Path × List Path)) (P : Pat
 
 /-- **restore ∘ snap**: the snapshot of a sane state is accepted, and the state that comes back has the
     same configuration as a set, the same context and status, an empty queue and fresh counters, and
-    the same history as a map — each remembered list holding the same states, in id order. -/
+    the same history as a map — each remembered list holding the same states, in (depth, id) order. -/
 theorem restore_snap (m : Machine) (hd : MDot m) (s : St) (hs : SnapOK m s) :
     restore m (snap m s) = .ok (restored m s) ∧
     (restored m s).cfg.Perm s.cfg ∧ (restored m s).ctx = s.ctx ∧ (restored m s).status = s.status ∧
     (restored m s).queue = [] ∧ (restored m s).raiseDepth = 0 ∧ (restored m s).err = none ∧
-    (∀ P, histGet (restored m s).hist P = (histGet s.hist P).map (sortIds m)) ∧
-    (∀ kv ∈ s.hist, (sortIds m kv.2).Perm kv.2) :=
-  ⟨restore_snap_core m hd s hs, closeUp_perm m s.cfg hs.cfgClosed hs.cfgNodup, rfl, rfl, rfl, rfl, rfl,
-    histGet_histSorted m s.hist, fun kv _ => sortIds_perm m kv.2⟩
+    (∀ P, histGet (restored m s).hist P = (histGet s.hist P).map (fun R => sortDI m (sortIds m R))) ∧
+    (∀ kv ∈ s.hist, (sortDI m (sortIds m kv.2)).Perm kv.2) ∧ DISorted m (restored m s).hist := by
+  refine ⟨restore_snap_core m hd s hs, closeUp_perm m s.cfg hs.cfgClosed hs.cfgNodup, rfl, rfl, rfl, rfl, rfl,
+    histGet_histOrd m (sortDI m) s.hist, fun kv _ => (sortDI_perm m _).trans (sortIds_perm m kv.2), ?_⟩
+  intro kv hkv
+  obtain ⟨kv0, _, rfl⟩ := List.mem_map.1 hkv
+  exact Hist.sortBy_pairwise _ (depthIdLe_total m) (fun _ _ _ => depthIdLe_trans m) _
 
-theorem histSorted_of_idSorted (m : Machine) (s : St) (h : IdSorted m s) : histSorted m s.hist = s.hist := by
-  unfold histSorted
+/-- the remembered lists come back exactly as they were recorded -/
+theorem restored_hist (m : Machine) (hd : MDot m) (s : St) (hs : SnapOK m s) (hdi : DISorted m s.hist) :
+    (restored m s).hist = s.hist := by
+  show histOrd m (sortDI m) s.hist = s.hist
+  unfold histOrd
   conv => rhs; rw [← List.map_id s.hist]
   apply List.map_congr_left
   intro kv hkv
-  rw [h kv hkv]; rfl
+  have hinj : IdInj m kv.2 := idInj_of_valid m hd kv.2 (hs.histValid kv hkv).2.2
+  have h1 : sortDI m (sortIds m kv.2) = sortDI m kv.2 :=
+    sortDI_perm_eq m (sortIds_perm m kv.2) (hinj.perm (sortIds_perm m kv.2).symm)
+  rw [h1, sortDI_of_sorted m kv.2 hinj (hdi kv hkv)]
+  rfl
 
-/-- … and when the remembered lists were in id order already (and the cut is quiescent), the restored
-    state is `SnapEquiv` to the original: same history exactly (in particular `histGet` agrees for every
-    owner), same queue and counter. -/
+/-- **… and the restored state is `SnapEquiv` to the original** (quiescent cut): same history exactly
+    (in particular `histGet` agrees for every owner), same queue and counter. `DISorted` is what
+    `_record_history` guarantees (`recorded_lists_sorted`). -/
 theorem restore_snap_equiv (m : Machine) (hd : MDot m) (s : St) (hs : SnapOK m s) (hq : Quiet s)
-    (hso : IdSorted m s) :
+    (hdi : DISorted m s.hist) :
     restore m (snap m s) = .ok (restored m s) ∧ SnapEquiv m s (restored m s) ∧
-      ∀ P, histGet (restored m s).hist P = histGet s.hist P := by
-  have hh : (restored m s).hist = s.hist := histSorted_of_idSorted m s hso
-  refine ⟨restore_snap_core m hd s hs, ?_, fun P => by rw [hh]⟩
+      (restored m s).hist = s.hist ∧ ∀ P, histGet (restored m s).hist P = histGet s.hist P := by
+  have hh : (restored m s).hist = s.hist := restored_hist m hd s hs hdi
+  refine ⟨restore_snap_core m hd s hs, ?_, hh, fun P => by rw [hh]⟩
   exact ⟨(closeUp_perm m s.cfg hs.cfgClosed hs.cfgNodup).symm, hh.symm, hq.1, rfl, TraceEq.nil, rfl, rfl, hq.2, rfl⟩
 
+/-- **`_record_history` guarantees the order**: in every state a run reaches — `start()`, then any
+    commands, either engine, any machine, any user code — every remembered list is in (depth, id) order -/
+theorem recorded_lists_sorted (m : Machine) (fl : Flavor) (u : UEnv) (evs : List Ev) :
+    DISorted m (evs.foldl (cmdO fl m u) (start fl m u {})).hist :=
+  diSorted_run m fl u evs
+
 /-- **re-snapshot reproduces**: whatever `restore` makes of a snapshot, its snapshot is that snapshot
-    (no `IdSorted` needed: sorting is idempotent) -/
+    (the snapshot sorts the remembered lists by id whatever order they are held in) -/
 theorem snap_restore_snap (m : Machine) (hd : MDot m) (s : St) (hs : SnapOK m s) (s' : St)
     (h : restore m (snap m s) = .ok s') : snap m s' = snap m s := by
   rw [restore_snap_core m hd s hs] at h
@@ -132,7 +152,7 @@ theorem repeated_cycles (m : Machine) (hd : MDot m) (s : St) (hs : SnapOK m s) :
 /-- a snapshot that does not decode to a JSON object: `InvalidConfigError` -/
 theorem restore_rejects_nonobject (m : Machine) (j : J) (h : ∀ kvs, j ≠ .obj kvs) :
     ∃ msg, restore m j = .error (.invalidConfig msg) := by
-  unfold restore
+  unfold restore restoreWith
   split
   · rename_i kvs; exact absurd rfl (h kvs)
   · exact ⟨_, rfl⟩
@@ -146,7 +166,7 @@ theorem restore_rejects_unknown_state (m : Machine) (kvs : List (String × J)) (
     ∃ id ∈ ids, stateById m id = none ∧ restore m (.obj kvs) = .error (.stateNotFound id) := by
   obtain ⟨id, hid, hn, he⟩ := restoreIds_unknown m ids hbad
   refine ⟨id, hid, hn, ?_⟩
-  unfold restore
+  unfold restore restoreWith
   simp only [hc, hst, hids, he]
 
 /-- wrongly typed or missing `status` / `context`: never accepted -/
@@ -167,7 +187,7 @@ theorem restore_rejects_shape_configuration (m : Machine) (j : J) (h : ∀ ids, 
   intro s hs
   obtain ⟨ids, _, hi, _⟩ := (restore_ok_inv m j s hs).2.2.2.1
   exact h ids hi
-theorem restore_rejects_shape_history (m : Machine) (j : J) (h : ∀ hh, restoreHistJ m j ≠ .ok hh) :
+theorem restore_rejects_shape_history (m : Machine) (j : J) (h : ∀ hh, restoreHistJ m (sortDI m) j ≠ .ok hh) :
     ∀ s, restore m j ≠ .ok s := by
   intro s hs
   exact h _ (restore_ok_inv m j s hs).2.2.2.2.1
@@ -180,7 +200,7 @@ theorem restore_ok_inv (m : Machine) (j : J) (s : St) (h : restore m j = .ok s) 
     j.get? "status" = some (.str s.status) ∧
     (∃ ids ps, restoreIdsJ j = .ok ids ∧ restoreIds m ids = .ok ps ∧ s.cfg = closeUp ps ∧
       ∀ id ∈ ids, ∃ p ∈ ps, stateById m id = some p) ∧
-    restoreHistJ m j = .ok s.hist ∧ Quiet s ∧ s.err = none := by
+    restoreHistJ m (sortDI m) j = .ok s.hist ∧ Quiet s ∧ s.err = none := by
   obtain ⟨h1, h2, h3, ⟨ids, ps, h4, h5, h6⟩, h7, h8, h9, h10⟩ := Snap.restore_ok_inv m j s h
   exact ⟨h1, h2, h3, ⟨ids, ps, h4, h5, h6, restoreIds_ok_mem m ids ps h5⟩, h7, ⟨h8, h9⟩, h10⟩
 
@@ -213,36 +233,69 @@ theorem runInv_legal (fl : Flavor) (m : Machine) (u : UEnv) (hwf : WF m.root) (h
     RunInv m u (hooksOf fl u m) fl (RunP m) (CandOK m) (fun s c => HistCand m s.cfg c) :=
   Snap.runInv_legal fl m u hwf hi hsel hd
 
-/-- **resume is bisimilar** (partial: `IdSorted` at the cut, see the counterexample below).  For a
-    well-formed machine with sound selection, either engine and arbitrary user code: the snapshot of a
-    sane quiescent state whose remembered lists are in id order is accepted, and from the restored
-    state EVERY continuation of events behaves as from the original — after each command the same
-    configuration (as a set), context, history, status and queue, and the same log of that command. -/
-theorem resume_bisimilar_partial (fl : Flavor) (m : Machine) (u : UEnv) (hwf : WF m.root) (hi : InitOK m.root)
+/-- **every state a run reaches satisfies it** (C01 and C11 for whole runs of either engine, history
+    targets included): if `start()` did not refuse the machine, then after `start()` and after every
+    command the configuration is `Legal` and every remembered list is a legal selection -/
+theorem reached_runP (fl : Flavor) (m : Machine) (u : UEnv) (hwf : WF m.root) (hi : InitOK m.root)
+    (hk : m.root.kind ≠ .history) (hsel : SelSoundH m) (hd : MDot m) (hstart : (start fl m u {}).err = none)
+    (evs : List Ev) :
+    Legal m.root (evs.foldl (cmdO fl m u) (start fl m u {})).cfg ∧
+      HistAll m (evs.foldl (cmdO fl m u) (start fl m u {})).hist :=
+  runP_run fl m u hwf hi hk hsel hd hstart evs
+
+/-- **resume is bisimilar.**  For a well-formed machine with sound selection, either engine and
+    arbitrary user code: the snapshot of a sane quiescent state is accepted, re-snapshotting the restored
+    state reproduces it, and from the restored state EVERY continuation of events behaves as from the
+    original — after each command the same configuration (as a set), context, history, status and
+    queue, and the same log of that command (actions in order, error flag, failure count). -/
+theorem resume_bisimilar (fl : Flavor) (m : Machine) (u : UEnv) (hwf : WF m.root) (hi : InitOK m.root)
     (hsel : SelSoundH m) (hd : MDot m) (s : St) (hL : Legal m.root s.cfg) (hA : HistAll m s.hist)
-    (hs : SnapOK m s) (hq : Quiet s) (hso : IdSorted m s) :
+    (hdi : DISorted m s.hist) (hs : SnapOK m s) (hq : Quiet s) :
     ∃ s', restore m (snap m s) = .ok s' ∧ snap m s' = snap m s ∧
       ∀ evs : List Ev,
         SnapEquiv m (evs.foldl (cmdO fl m u) s) (evs.foldl (cmdO fl m u) (resume s')) ∧
         ∀ e, St.equiv m (cmdO fl m u (evs.foldl (cmdO fl m u) s) e)
           (cmdO fl m u (evs.foldl (cmdO fl m u) (resume s')) e) := by
-  obtain ⟨h1, h2, _⟩ := restore_snap_equiv m hd s hs hq hso
+  obtain ⟨h1, h2, _⟩ := restore_snap_equiv m hd s hs hq hdi
   exact ⟨restored m s, h1, snap_restored m hd s hs, fun evs =>
     resume_bisimilar_of_inv fl (Snap.runInv_legal fl m u hwf hi hsel hd) h2 ⟨hL, hA⟩ evs⟩
 
+/-- **… from every cut point of every run**: the cut is the state after `start()` and any prefix `pre`
+    of events. Legality, legal remembered selections and the (depth, id) order are theorems about
+    reached states; what remains a hypothesis of the cut is that it is quiescent (`Quiet`: a `send()`
+    that raised can leave events queued, and the snapshot does not store the queue) and `SnapOK`
+    (no duplicate in the configuration list, remembered lists non-empty lists of states). -/
+theorem resume_bisimilar_run (fl : Flavor) (m : Machine) (u : UEnv) (hwf : WF m.root) (hi : InitOK m.root)
+    (hk : m.root.kind ≠ .history) (hsel : SelSoundH m) (hd : MDot m) (hstart : (start fl m u {}).err = none)
+    (pre : List Ev) (hs : SnapOK m (pre.foldl (cmdO fl m u) (start fl m u {})))
+    (hq : Quiet (pre.foldl (cmdO fl m u) (start fl m u {}))) :
+    ∃ s', restore m (snap m (pre.foldl (cmdO fl m u) (start fl m u {}))) = .ok s' ∧
+      snap m s' = snap m (pre.foldl (cmdO fl m u) (start fl m u {})) ∧
+      ∀ evs : List Ev,
+        SnapEquiv m (evs.foldl (cmdO fl m u) (pre.foldl (cmdO fl m u) (start fl m u {})))
+          (evs.foldl (cmdO fl m u) (resume s')) ∧
+        ∀ e, St.equiv m (cmdO fl m u (evs.foldl (cmdO fl m u) (pre.foldl (cmdO fl m u) (start fl m u {}))) e)
+          (cmdO fl m u (evs.foldl (cmdO fl m u) (resume s')) e) := by
+  obtain ⟨hL, hA⟩ := runP_run fl m u hwf hi hk hsel hd hstart pre
+  exact resume_bisimilar fl m u hwf hi hsel hd _ hL hA (diSorted_run m fl u pre) hs hq
+
 /-- the same from machine-level hypotheses only, for machines all of whose transitions have plain or
     root targets (`TargetsOK`, as `legal_run'`): `SelSoundH` is then a theorem -/
-theorem resume_bisimilar_partial_of_targets (fl : Flavor) (m : Machine) (u : UEnv) (hwf : WF m.root)
-    (hi : InitOK m.root) (ht : TargetsOK m) (hd : MDot m) (s : St) (hL : Legal m.root s.cfg)
-    (hA : HistAll m s.hist) (hs : SnapOK m s) (hq : Quiet s) (hso : IdSorted m s) :
-    ∃ s', restore m (snap m s) = .ok s' ∧ snap m s' = snap m s ∧
+theorem resume_bisimilar_of_targets (fl : Flavor) (m : Machine) (u : UEnv) (hwf : WF m.root)
+    (hi : InitOK m.root) (hk : m.root.kind ≠ .history) (ht : TargetsOK m) (hd : MDot m)
+    (hstart : (start fl m u {}).err = none)
+    (pre : List Ev) (hs : SnapOK m (pre.foldl (cmdO fl m u) (start fl m u {})))
+    (hq : Quiet (pre.foldl (cmdO fl m u) (start fl m u {}))) :
+    ∃ s', restore m (snap m (pre.foldl (cmdO fl m u) (start fl m u {}))) = .ok s' ∧
+      snap m s' = snap m (pre.foldl (cmdO fl m u) (start fl m u {})) ∧
       ∀ evs : List Ev,
-        SnapEquiv m (evs.foldl (cmdO fl m u) s) (evs.foldl (cmdO fl m u) (resume s')) ∧
-        ∀ e, St.equiv m (cmdO fl m u (evs.foldl (cmdO fl m u) s) e)
+        SnapEquiv m (evs.foldl (cmdO fl m u) (pre.foldl (cmdO fl m u) (start fl m u {})))
+          (evs.foldl (cmdO fl m u) (resume s')) ∧
+        ∀ e, St.equiv m (cmdO fl m u (evs.foldl (cmdO fl m u) (pre.foldl (cmdO fl m u) (start fl m u {}))) e)
           (cmdO fl m u (evs.foldl (cmdO fl m u) (resume s')) e) :=
-  resume_bisimilar_partial fl m u hwf hi (SelSound.toH (selSound_of_targetsOK m ht)) hd s hL hA hs hq hso
+  resume_bisimilar_run fl m u hwf hi hk (SelSound.toH (selSound_of_targetsOK m ht)) hd hstart pre hs hq
 
-/-! ## 4. why `IdSorted`: finding F40 -/
+/-! ## 4. finding F40 (fixed by 546b3d4): why `from_snapshot` must re-establish the (depth, id) order -/
 namespace Ex
 /-
 m (compound, initial P)
@@ -254,7 +307,8 @@ m (compound, initial P)
 └─ S                           on BACK: → #m.P.hd
 After OUT the history of `P` is remembered in (depth, id) order: [P.a, P.b, P.a.x]; the snapshot stores
 it sorted by id: [m.P.a, m.P.a.x, m.P.b].  BACK restores the leaves in the remembered order: the live
-interpreter enters b, then a, x (context c = 1); the restored one enters a, x, then b (c = 2).
+interpreter enters b, then a, x (context c = 1). Before 546b3d4 the restored interpreter kept the id
+order and entered a, x, then b (c = 2); now it sorts the list back and does what the live one does.
 -/
 def mkT (tid : Nat) (event : String) (target : Option String) : Trans :=
   { tid, event, target, guard := none, actions := [], reenter := false, forbidden := false }
@@ -279,9 +333,10 @@ def cxU : UEnv :=
     a := fun n c _ => if n = "set:c:1" then .ok (ctxSet c "c" 1) else if n = "set:c:2" then .ok (ctxSet c "c" 2) else .ok c }
 /-- the cut: after `start()` and `OUT` -/
 def cxS : St := cmdO .sync cxM cxU (start .sync cxM cxU {}) (.user "OUT")
-/-- what the continuation `f` yields from the restored interpreter -/
-def afterRestore {α} (dflt : α) (f : St → α) : α :=
-  match restore cxM (snap cxM cxS) with
+/-- what the continuation `f` yields from the restored interpreter (`rst` = `restore` or the pre-fix
+    `restoreUnsorted`) -/
+def afterRestore {α} (rst : Machine → J → Except RErr St) (dflt : α) (f : St → α) : α :=
+  match rst cxM (snap cxM cxS) with
   | .ok s' => f (resume s')
   | .error _ => dflt
 end Ex
@@ -289,33 +344,32 @@ open Ex
 
 example : cxS.cfg = [[], ["S"]] ∧ cxS.hist = [(["P"], [["P", "a"], ["P", "b"], ["P", "a", "x"]])] ∧
     cxS.queue = [] ∧ cxS.raiseDepth = 0 := by decide
-/-- the cut is quiescent and sane but not `IdSorted` -/
-example : ¬ IdSorted cxM cxS := by
-  intro h
-  have := h (["P"], [["P", "a"], ["P", "b"], ["P", "a", "x"]]) (by decide)
-  revert this; decide
-example : afterRestore [] (·.hist) = [(["P"], [["P", "a"], ["P", "a", "x"], ["P", "b"]])] := by decide
+/-- what the two versions of `from_snapshot` make of the remembered list -/
+example : afterRestore restoreUnsorted [] (·.hist) = [(["P"], [["P", "a"], ["P", "a", "x"], ["P", "b"]])] ∧
+    afterRestore restore [] (·.hist) = cxS.hist := by decide
 
-/-- **counterexample to the unrestricted claim** (F40; the library does the same, replay
-    `findings/F40_snapshot_history_order.json`): the snapshot is accepted, the restored state has the
-    same configuration, context and status — and after the continuation `BACK` the two interpreters
-    have run the entry actions in different orders and hold different contexts. -/
-theorem resume_history_order_counterexample :
-    afterRestore false (fun s' => s'.cfg == cxS.cfg && s'.ctx == cxS.ctx && s'.status == cxS.status) = true ∧
+/-- **the pre-fix behaviour** (F40; replay `findings/F40_snapshot_history_order.json` failed on the code
+    before 546b3d4): the snapshot is accepted, the restored state has the same configuration, context and
+    status — and after the continuation `BACK` the two interpreters have run the entry actions in
+    different orders and hold different contexts. -/
+theorem prefix_resume_history_order_counterexample :
+    afterRestore restoreUnsorted false
+      (fun s' => s'.cfg == cxS.cfg && s'.ctx == cxS.ctx && s'.status == cxS.status) = true ∧
     (cmdO .sync cxM cxU cxS (.user "BACK")).trace.reverse =
       ["#recv:BACK", "en:b@BACK", "set:c:2@BACK", "en:a@BACK", "set:c:1@BACK", "en:x@BACK",
        "#t:m,m.P,m.P.b,m.P.a,m.P.a.x"] ∧
-    afterRestore [] (fun s' => (cmdO .sync cxM cxU s' (.user "BACK")).trace.reverse) =
+    afterRestore restoreUnsorted [] (fun s' => (cmdO .sync cxM cxU s' (.user "BACK")).trace.reverse) =
       ["#recv:BACK", "en:a@BACK", "set:c:1@BACK", "en:x@BACK", "en:b@BACK", "set:c:2@BACK",
        "#t:m,m.P,m.P.a,m.P.a.x,m.P.b"] ∧
     (cmdO .sync cxM cxU cxS (.user "BACK")).ctx = [("c", 1)] ∧
-    afterRestore [] (fun s' => (cmdO .sync cxM cxU s' (.user "BACK")).ctx) = [("c", 2)] := by decide
+    afterRestore restoreUnsorted [] (fun s' => (cmdO .sync cxM cxU s' (.user "BACK")).ctx) = [("c", 2)] := by decide
 
-/-- hence no equivalence that includes the context survives that continuation -/
-theorem resume_not_equiv_counterexample :
-    afterRestore True (fun s' => ¬ St.equiv cxM (cmdO .sync cxM cxU cxS (.user "BACK"))
+/-- hence, before the fix, no equivalence that includes the context survived that continuation -/
+theorem prefix_resume_not_equiv_counterexample :
+    afterRestore restoreUnsorted True (fun s' => ¬ St.equiv cxM (cmdO .sync cxM cxU cxS (.user "BACK"))
       (cmdO .sync cxM cxU s' (.user "BACK"))) := by
-  have h2 : afterRestore [] (fun s' => (cmdO .sync cxM cxU s' (.user "BACK")).ctx) = [("c", 2)] := by decide
+  have h2 : afterRestore restoreUnsorted [] (fun s' => (cmdO .sync cxM cxU s' (.user "BACK")).ctx) = [("c", 2)] := by
+    decide
   have h1 : (cmdO .sync cxM cxU cxS (.user "BACK")).ctx = [("c", 1)] := by decide
   unfold afterRestore at h2 ⊢
   split
@@ -327,6 +381,13 @@ theorem resume_not_equiv_counterexample :
     rw [h1, h2] at this
     revert this; decide
   · trivial
+
+/-- **with the fix** the same witness agrees: same log in the same order, same context, both engines -/
+theorem fix_restores_order_example :
+    afterRestore restore [] (fun s' => (cmdO .sync cxM cxU s' (.user "BACK")).trace.reverse) =
+      (cmdO .sync cxM cxU cxS (.user "BACK")).trace.reverse ∧
+    afterRestore restore [] (fun s' => (cmdO .sync cxM cxU s' (.user "BACK")).ctx) = [("c", 1)] ∧
+    afterRestore restore [] (fun s' => (cmdO .async cxM cxU s' (.user "BACK")).ctx) = [("c", 1)] := by decide
 
 /-- the hypotheses of the theorems hold of the example machine and cut (nothing is vacuous): the machine
     is well-formed with dot-free keys, the cut is sane, quiescent and legal -/
@@ -356,10 +417,13 @@ theorem cxLegal : Legal cxM.root cxS.cfg := by
 /-- `restore_snap` applied to the example cut: the snapshot is accepted, same configuration as a set -/
 example : restore cxM (snap cxM cxS) = .ok (restored cxM cxS) ∧ (restored cxM cxS).cfg.Perm cxS.cfg :=
   ⟨(restore_snap cxM cxMDot cxS cxSnapOK).1, (restore_snap cxM cxMDot cxS cxSnapOK).2.1⟩
-/-- a cut where `IdSorted` holds: right after `start()` nothing is remembered yet -/
-example : IdSorted cxM (start .sync cxM cxU {}) := by
+/-- the example cut is in (depth, id) order, as every recorded history is -/
+example : DISorted cxM cxS.hist := by
   intro kv hkv
-  have : (start .sync cxM cxU {}).hist = [] := by decide
-  rw [this] at hkv; cases hkv
+  have : kv = (["P"], [["P", "a"], ["P", "b"], ["P", "a", "x"]]) := by
+    have h : cxS.hist = [(["P"], [["P", "a"], ["P", "b"], ["P", "a", "x"]])] := by decide
+    rw [h] at hkv; simpa using hkv
+  subst this
+  decide
 
 end XSM.C12
